@@ -34,8 +34,19 @@ def H(name, **kw):
     HARNESSES[name] = kw
 
 
+MODULE_CONTRACTS = {}
+
+
 def contracts_for(hs):
+    """T3 contracts to splice: those a selected harness asks for, and those the proof modules in use refer to
+    (a module that mentions #[kani::stub_verified(f)] / proof_for_contract(f) needs f's contract in every build)"""
     out = []
+    mods = {s.get("module") for s in hs.values()} | {m for s in hs.values() for m in s.get("extra_modules", [])}
+    mods |= {d for m in mods if m for d in globals().get("MODULE_DEPS", {}).get(m, [])}
+    for m in sorted(x for x in mods if x):
+        for c in MODULE_CONTRACTS.get(m, []):
+            if c not in out:
+                out.append(c)
     for s in hs.values():
         for c in s.get("contracts", []):
             if c not in out:
@@ -462,3 +473,27 @@ for _h in ("c09_gate_raw", "c09_gate_pair", "c09_gate_async", "c09_gate_mixed"):
 H("c11_alloc_twin", module="verif_common.rs", props=["C11", "C12"], fns=[(COM, "allocate_jit_memory"), (COM, "allocate_jit_memory_unix")], expects_panic=True,
   covers=["COVER:end", "COVER:clipped-window", "COVER:two-rejections"], bounded="page size forced to 64 MiB so that the search makes at most 5 attempts (the unbounded proof is the Verus unit alloc_*)")
 HARNESSES["c11_alloc_twin"]["shared"] = {"C11.twin.frame": ["C12"]}
+
+# ------------------------------------------------------------------------------------------------
+# Kani function contracts on the A64 emitters (T3) + the modular form of C15.abs
+_O = "crate::verif_rt::oracle"
+_A64_CONTRACTS = [
+    dict(file=A64G, fn="emit_movz_from_address", lines=[
+        "kani::requires(start % 16 == 0 && start <= 48)",
+        "kani::ensures(|r: &[bool; 32]| %s::a64_decode(%s::pack32(r)) == Some(%s::A64::Movz { sf, hw: %s::pack2(&hw), imm16: ((address >> start) & 0xFFFF) as u16, rd: %s::pack5(&register_name) }))" % (_O, _O, _O, _O, _O)]),
+    dict(file=A64G, fn="emit_movk_from_address", lines=[
+        "kani::requires(start % 16 == 0 && start <= 48)",
+        "kani::ensures(|r: &[bool; 32]| %s::a64_decode(%s::pack32(r)) == Some(%s::A64::Movk { sf, hw: %s::pack2(&hw), imm16: ((address >> start) & 0xFFFF) as u16, rd: %s::pack5(&register_name) }))" % (_O, _O, _O, _O, _O)]),
+    dict(file=A64G, fn="emit_br", lines=[
+        "kani::ensures(|r: &[bool; 32]| %s::a64_decode(%s::pack32(r)) == Some(%s::A64::Br { rn: %s::pack5(&register_name) }))" % (_O, _O, _O, _O)]),
+]
+# The proof_for_contract harnesses of the two *_from_address emitters exist in the module (stub_verified needs
+# them) but are NOT run: Kani's contract instrumentation needs ~60 GB on them (measured, OOM). Their
+# post-condition is the very predicate discharged by the plain harness c15_from_address for all inputs.
+for _n in ("contract_emit_br",):
+    H(_n, module="verif_a64gen.rs", props=["C15"], fns=_GEN_FNS, contracts=_A64_CONTRACTS, covers=[], min_obligations=1, contract_proof=True, timeout=1500)
+H("c15_abs_modular", module="verif_arm64.rs", extra_modules=["verif_a64gen.rs"], props=["C15", "C13"], fns=[(A64P, "generate_will_execute_jit_code_abs")] + _GEN_FNS, contracts=_A64_CONTRACTS)
+MODULE_CONTRACTS["verif_arm64.rs"] = _A64_CONTRACTS
+MODULE_CONTRACTS["verif_a64gen.rs"] = _A64_CONTRACTS
+MODULE_DEPS = {"verif_arm64.rs": ["verif_a64gen.rs"]}
+HARNESSES["c15_abs_modular"]["note"] = "callee contracts: emit_br proved by #[kani::proof_for_contract]; emit_movz/movk_from_address stated by T3 and discharged by the plain harness c15_from_address (same predicate for all inputs) because Kani's contract instrumentation needs ~60 GB on them"
